@@ -35,7 +35,9 @@ One unit of fuel is consumed at the head of every iteration (before the conditio
 do-while).  `init` of a `for` is executed before the loop is entered.  FUEL CONVENTION: every loop of a function is started
 with the function's own `fuel` argument, unchanged (two successive loops get the same fuel, exactly as in IterDefs.v); fuel is
 a proof device: Properties_C03.v shows that fuel > number of nodes is enough on a tree.
-`return` inside a loop, a write inside a loop, and a loop that reads `root->node` are Unsupported.
+`return` inside a loop and a nested loop are Unsupported; a loop that writes nothing gets the reader `rd` and may not
+read `root->node` or `*next`; a loop that writes (or calls a writing function) carries the state instead: parameter `st'0`,
+handed back with the loop's results.
 
 Conditions.  `p` (non-null), `!c`, `a && b`, `a || b` (short-circuit: the reads of b happen only when a does not decide),
 `p == q`, `p != q` on node pointers (`oid_eqb`).  `if / else if / else`, early `return`.  Control flow is translated in
@@ -53,6 +55,23 @@ variable), threaded as `st'k`:
     g(root, a, b)   bind (g st a b) (fun st' => ...)          for a void helper translated earlier (root must be the
                                                               caller's own tree parameter)
 and returns `Ok (value, st)` (`Ok st` for a void function).  Writing the parent word is Unsupported.
+
+The macro unit (harness/C03/macro_unit.c: one function per iteration macro of avl.h / rbt.h, its body the macro around
+`visit_<tree>(cur)`; module Gen.NavGenMacros, `translate_unit`).  Additional vocabulary:
+    p = f(args)     bind (f rd fuel [root_node] args) (fun p' => ...)    for a read-only function translated before (a_avl_head,
+                    a_avl_next ...: the definitions of Gen.NavGen); for a writing one (a_avl_tear)
+                    bind (f fuel st) (fun '(p', st') => ...).  Inside a loop the call gets the FUNCTION's fuel (parameter
+                    `fuel0` of the loop), as the model's `iterate (next rd fuel) fuel` does.
+    visit_<tree>(p) emit p (<rest>): the function returns the list of the visited elements (with its other results: every
+                    result of such a function is `res (list id * A)`, `Ok ([], a)` at the ends, `bind_log` after a loop); a void
+                    function that writes nothing returns the list alone.  Visiting a null pointer is Stuck.
+    free(p)         bind (free_ptr st p) (fun st' => ...): the node leaves the heap (IterDefs.free_node); free(NULL) does nothing,
+                    freeing an id that is not allocated is Stuck.
+    T *next; &next  a local node pointer whose address is taken (at most one) IS the cell `tnext` of the state: reads are
+                    `tnext st`, assignments `set_next`; `&next` is accepted only as the node** argument of a translated function.
+    for (T *x = e; c; s) S   is   { T *x = e; for (; c; s) S }.
+FUEL IN THE MACRO UNIT: a while/for loop consumes its unit of fuel on ENTRY TO THE BODY (after the test), as IterDefs.iterate
+does (a loop over exactly n elements run with fuel n ends with Ok); do-while and `for (;;)` as before.
 
 Anything else (integer expressions, switch, goto, ++, address-of, arrays, calls to other functions, uninitialised reads,
 other types ...) raises Unsupported with function and line - nothing is approximated silently."""
@@ -185,15 +204,18 @@ def ind(txt, by=2):
 class Tr:
     """translation of the functions of one translation unit"""
 
-    def __init__(self, ast, tree):
+    def __init__(self, ast, tree, done=None, fuel_at="head"):
         self.conf = TREES[tree]
         self.tree = tree
+        self.fuel_at = fuel_at            # where a while/for loop consumes its unit of fuel: "head" (before the test) or "body"
+        self.visit = "visit_" + tree      # the unit file's use of an element (macro unit only)
+        self.free = "free"
         self.funcs = {}
         for n in ast.get("inner", []):
             if n.get("kind") == "FunctionDecl" and any(c.get("kind") == "CompoundStmt" for c in n.get("inner", [])):
                 self.funcs[n["name"]] = n
         self.lines = Lines()
-        self.done = {}        # name -> {"mode": "reader"/"state", "fuel": bool, "params": [...], "ret": "ptr"/"void"}
+        self.done = dict(done or {})   # name -> {"mode": "reader"/"state", "fuel": bool, "params": [...], "ret": "ptr"/"void"}
         self.accessor_form = None
         self.accessor_error = None
         self.T_NODE = self.conf["node"] + "*"
@@ -292,19 +314,46 @@ class Tr:
                 self.assigned(c, out)
         return out
 
-    def writes_state(self, n):
-        """does the subtree assign through a pointer or call a function translated over the state?"""
+    def writes_state(self, n, cells=()):
+        """does the subtree assign through a pointer / to a variable whose address is taken, free a node, or call a function
+        translated over the state?"""
         if isinstance(n, dict):
             if n.get("kind") in ("BinaryOperator", "CompoundAssignOperator") and (n.get("opcode") == "=" or n.get("kind") == "CompoundAssignOperator"):
-                if skip(n["inner"][0]).get("kind") != "DeclRefExpr":
+                l = skip(n["inner"][0])
+                if l.get("kind") != "DeclRefExpr" or l["referencedDecl"].get("name") in cells:
                     return True
+            if n.get("kind") == "VarDecl" and n.get("name") in cells:
+                return True
             if n.get("kind") == "CallExpr":
                 cal = skip(n["inner"][0])
                 nm = cal.get("referencedDecl", {}).get("name")
-                if nm in self.done and self.done[nm]["mode"] == "state":
+                if nm == self.free or (nm in self.done and self.done[nm]["mode"] == "state"):
                     return True
-            return any(self.writes_state(c) for c in n.get("inner", []) or [])
+            return any(self.writes_state(c, cells) for c in n.get("inner", []) or [])
         return False
+
+    def calls(self, n, pred):
+        """does the subtree call a function f with pred(f)?"""
+        if isinstance(n, list):
+            return any(self.calls(c, pred) for c in n)
+        if isinstance(n, dict):
+            if n.get("kind") == "CallExpr":
+                nm = skip(n["inner"][0]).get("referencedDecl", {}).get("name")
+                if pred(nm):
+                    return True
+            return any(self.calls(c, pred) for c in n.get("inner", []) or [])
+        return False
+
+    def address_taken(self, n, out=None):
+        out = set() if out is None else out
+        if isinstance(n, dict):
+            if n.get("kind") == "UnaryOperator" and n.get("opcode") == "&":
+                b = skip(n["inner"][0])
+                if b.get("kind") == "DeclRefExpr" and b.get("referencedDecl", {}).get("kind") in ("VarDecl", "ParmVarDecl"):
+                    out.add(b["referencedDecl"]["name"])
+            for c in n.get("inner", []) or []:
+                self.address_taken(c, out)
+        return out
 
     # ------------------------------------------------------------------ one function
     def translate(self, name):
@@ -326,6 +375,7 @@ class Fn:
         self.nloops = 0
         self.counter = None       # fresh-name counters of the definition being written
         self.order = []           # C variables in declaration order
+        self.log = False          # does the function visit elements (macro unit)? then every result carries the list of visits
         self.sig = None
 
     def where(self, n):
@@ -344,7 +394,78 @@ class Fn:
     #                                     "st": current state variable (None in a function that writes nothing),
     #                                     "root": name of the tree parameter, "next": set of <node>** parameters, "inloop": bool}
     def rd_term(self, E):
-        return "(rdh (th %s))" % E["st"] if E["st"] and not E["inloop"] else "rd"
+        return "(rdh (th %s))" % E["st"] if E["st"] and (not E["inloop"] or E["stateful"]) else "rd"
+
+    def state_ok(self, E):
+        """may the state be read / written here?"""
+        return bool(E["st"]) and (not E["inloop"] or E["stateful"])
+
+    @staticmethod
+    def tuple_(items):
+        return "tt" if not items else items[0] if len(items) == 1 else "(" + ", ".join(items) + ")"
+
+    @staticmethod
+    def pattern(items):
+        return "_" if not items else items[0] if len(items) == 1 else "'(" + ", ".join(items) + ")"
+
+    @staticmethod
+    def type_(items):
+        return "unit" if not items else items[0] if len(items) == 1 else "(" + " * ".join(items) + ")"
+
+    def ok(self, items):
+        """a finished computation with the given payload (and, in a function that visits, an empty list of visits)"""
+        return "Ok ([], %s)" % self.tuple_(items) if self.log else "Ok %s" % self.tuple_(items)
+
+    def res_type(self, items):
+        return "res (list id * %s)" % self.type_(items) if self.log else "res %s" % (self.type_(items) if len(items) != 1 or " " not in items[0] else "(%s)" % items[0])
+
+    def use_fuel(self, E):
+        self.has_loop = True
+        return E["fuel"]
+
+    def callee_args(self, nm, sig, args, m, E, k):
+        """evaluate the node arguments of a call to a translated function; k : [terms] -> text"""
+        if len(args) != len(sig["params"]):
+            self.bad("call to %s with %d arguments" % (nm, len(args)), m)
+        vals = []
+
+        def go(i):
+            if i == len(args):
+                return k(vals)
+            kind = sig["params"][i][1]
+            a = skip(args[i])
+            if kind == "tree":
+                if a.get("kind") != "DeclRefExpr" or a["referencedDecl"]["name"] != E["root"]:
+                    self.bad("call to %s with a tree other than the caller's own `root`" % nm, m)
+                return go(i + 1)
+            if kind == "next":
+                if a.get("kind") == "DeclRefExpr" and a["referencedDecl"]["name"] in E["next"]:
+                    return go(i + 1)
+                if a.get("kind") == "UnaryOperator" and a.get("opcode") == "&":
+                    b = skip(a["inner"][0])
+                    if b.get("kind") == "DeclRefExpr" and b["referencedDecl"]["name"] in E["cell"]:
+                        return go(i + 1)
+                self.bad("call to %s with a node** other than the caller's own `next`" % nm, m)
+            return self.ptr(args[i], E, lambda v: (vals.append(v), go(i + 1))[1])
+        return go(0)
+
+    def root_term(self, E, n):
+        if E["st"]:
+            if not self.state_ok(E):
+                self.bad("read of root->%s inside a loop that does not carry the state" % self.conf["root_field"], n)
+            return "(troot %s)" % E["st"]
+        if E["inloop"]:
+            self.bad("read of root->%s inside a loop" % self.conf["root_field"], n)
+        return "root_node"
+
+    def reader_call(self, nm, sig, n, E, var, k):
+        """p = f(args) for a translated read-only function f"""
+        def done(vals):
+            fuel = " " + self.use_fuel(E) if sig["fuel"] else ""
+            root = " " + self.root_term(E, n) if any(kd == "tree" for _, kd in sig["params"]) else ""
+            t = self.fresh(var or "t")
+            return "bind (%s %s%s%s%s) (fun %s =>\n%s)" % (nm, self.rd_term(E), fuel, root, "".join(" " + v for v in vals), t, k(t))
+        return self.callee_args(nm, sig, n["inner"][1:], n, E, done)
 
     def ptr(self, n, E, k):
         n0 = n
@@ -360,6 +481,10 @@ class Fn:
             self.bad("expression of type `%s` where a `%s *` is expected" % (qual(n), self.conf["node"]), n0)
         if kind == "DeclRefExpr":
             nm = n["referencedDecl"]["name"]
+            if nm in E["cell"]:
+                if not self.state_ok(E):
+                    self.bad("read of %s (a variable whose address is taken) inside a loop that does not carry the state" % nm, n)
+                return k("(tnext %s)" % E["st"])
             if nm not in E["env"]:
                 self.bad("variable %s is not a node pointer known here" % nm, n)
             if E["env"][nm] is None:
@@ -373,9 +498,7 @@ class Fn:
             if bt == self.tr.T_TREE:
                 if b.get("kind") != "DeclRefExpr" or b["referencedDecl"]["name"] != E["root"] or n["name"] != self.conf["root_field"]:
                     self.bad("access to a tree object other than the function's own `root->%s`" % self.conf["root_field"], n)
-                if E["inloop"]:
-                    self.bad("read of root->%s inside a loop" % self.conf["root_field"], n)
-                return k("(troot %s)" % E["st"] if E["st"] else "root_node")
+                return k(self.root_term(E, n))
             if bt != self.tr.T_NODE:
                 self.bad("member of a `%s`" % qual(b), n)
             if n["name"] not in self.conf["fields"]:
@@ -384,7 +507,7 @@ class Fn:
             return self.ptr(b, E, lambda p: self.read(fld, p, E, k))
         if kind == "UnaryOperator" and n.get("opcode") == "*":
             b = skip(n["inner"][0])
-            if b.get("kind") == "DeclRefExpr" and b["referencedDecl"]["name"] in E["next"] and E["st"] and not E["inloop"]:
+            if b.get("kind") == "DeclRefExpr" and b["referencedDecl"]["name"] in E["next"] and self.state_ok(E):
                 return k("(tnext %s)" % E["st"])
             self.bad("dereference", n)
         if kind == "CallExpr":
@@ -393,6 +516,11 @@ class Fn:
             if nm == self.conf["parent_fn"] and len(n["inner"]) == 2:
                 self.tr.need_accessor(self, n)
                 return self.ptr(n["inner"][1], E, lambda p: self.read("np", p, E, k))
+            sig = self.tr.done.get(nm)
+            if sig and sig["mode"] == "reader" and sig["ret"] == "ptr":
+                return self.reader_call(nm, sig, n, E, None, k)
+            if sig and sig["mode"] == "state":
+                self.bad("call to the writing function %s inside an expression (only `p = %s(...)` is translated)" % (nm, nm), n)
             self.bad("call to %s in an expression" % nm, n)
         if kind == "ConditionalOperator":
             self.bad("?: expression", n)
@@ -453,6 +581,18 @@ class Fn:
         if kind == "BinaryOperator" and m.get("opcode") == "=":
             return self.assign(m, E, k)
         if kind == "CallExpr":
+            nm = skip(m["inner"][0]).get("referencedDecl", {}).get("name")
+            if nm == self.tr.visit and len(m["inner"]) == 2:
+                if not self.log:
+                    self.bad("call to %s (internal: function not translated as a visiting one)" % nm, m)
+                return self.ptr(m["inner"][1], E, lambda v: "emit %s (\n%s)" % (v, k(E)))
+            if nm == self.tr.free and len(m["inner"]) == 2:
+                a = m["inner"][1]
+                if a.get("kind") == "ImplicitCastExpr" and a.get("castKind") == "BitCast" and norm_type(qual(a)) == "void*":
+                    a = a["inner"][0]
+                if not self.state_ok(E):
+                    self.bad("free() %s" % ("inside a loop that does not carry the state" if E["inloop"] else "in a function translated as read-only (internal)"), m)
+                return self.ptr(a, E, lambda v: self.bind_state("free_ptr %s %s" % (E["st"], v), E, k))
             return self.call(m, E, k)
         self.bad("expression statement %s%s" % (kind, " " + m.get("opcode") if m.get("opcode") else ""), m)
 
@@ -461,6 +601,10 @@ class Fn:
         if skip(rhs).get("kind") == "BinaryOperator" and skip(rhs).get("opcode") == "=":
             self.bad("chained assignment", m)
         lk = lhs.get("kind")
+        if lk == "DeclRefExpr" and lhs["referencedDecl"]["name"] in E["cell"]:
+            if not self.state_ok(E):
+                self.bad("assignment to %s (a variable whose address is taken) inside a loop that does not carry the state" % lhs["referencedDecl"]["name"], m)
+            return self.ptr(rhs, E, lambda v: self.let_state("set_next %s %s" % (E["st"], v), E, k))
         if lk == "DeclRefExpr":
             nm = lhs["referencedDecl"]["name"]
             if nm not in E["env"] or norm_type(qual(lhs)) != self.tr.T_NODE:
@@ -475,9 +619,26 @@ class Fn:
                     and len(r["inner"]) == 2:
                 self.tr.need_accessor(self, r)
                 return self.ptr(r["inner"][1], E, lambda p: self.read_named("np", p, E, nm, lambda t: k(self.with_var(E, nm, t))))
+            if r.get("kind") == "CallExpr":
+                cn = skip(r["inner"][0]).get("referencedDecl", {}).get("name")
+                sig = self.tr.done.get(cn)
+                if sig and sig["mode"] == "reader" and sig["ret"] == "ptr":
+                    return self.reader_call(cn, sig, r, E, nm, lambda t: k(self.with_var(E, nm, t)))
+                if sig and sig["mode"] == "state" and sig["ret"] == "ptr":
+                    # p = f(root, &next): the callee works on the caller's state
+                    if not self.state_ok(E):
+                        self.bad("call to the writing function %s %s" % (cn, "inside a loop that does not carry the state" if E["inloop"] else "from a read-only function"), m)
+
+                    def done(vals):
+                        fuel = " " + self.use_fuel(E) if sig["fuel"] else ""
+                        t, st2 = self.fresh(nm), self.fresh("st")
+                        E2 = self.with_var(E, nm, t)
+                        E2["st"] = st2
+                        return "bind (%s%s %s%s) (fun '(%s, %s) =>\n%s)" % (cn, fuel, E["st"], "".join(" " + v for v in vals), t, st2, k(E2))
+                    return self.callee_args(cn, sig, r["inner"][1:], r, E, done)
             return self.ptr(rhs, E, lambda v: k(self.with_var(E, nm, v)))
-        if E["inloop"]:
-            self.bad("write through a pointer inside a loop", m)
+        if E["inloop"] and not E["stateful"]:
+            self.bad("write through a pointer inside a loop that does not carry the state", m)
         if not E["st"]:
             self.bad("write through a pointer in a function translated as read-only (internal)", m)
         if lk == "MemberExpr" and lhs.get("isArrow"):
@@ -524,29 +685,13 @@ class Fn:
             self.bad("call to %s, which has not been translated" % nm, m)
         if sig["mode"] != "state" or sig["ret"] != "void":
             self.bad("call to %s as a statement" % nm, m)
-        if E["inloop"] or not E["st"]:
-            self.bad("call to the writing function %s %s" % (nm, "inside a loop" if E["inloop"] else "from a read-only function"), m)
-        args = m["inner"][1:]
-        if len(args) != len(sig["params"]):
-            self.bad("call to %s with %d arguments" % (nm, len(args)), m)
-        vals = []
+        if not self.state_ok(E):
+            self.bad("call to the writing function %s %s" % (nm, "inside a loop that does not carry the state" if E["inloop"] else "from a read-only function"), m)
 
-        def go(i):
-            if i == len(args):
-                fuel = " fuel" if sig["fuel"] else ""
-                return self.bind_state("%s%s %s%s" % (nm, fuel, E["st"], "".join(" " + v for v in vals)), E, k)
-            kind = sig["params"][i][1]
-            a = skip(args[i])
-            if kind == "tree":
-                if a.get("kind") != "DeclRefExpr" or a["referencedDecl"]["name"] != E["root"]:
-                    self.bad("call to %s with a tree other than the caller's own `root`" % nm, m)
-                return go(i + 1)
-            if kind == "next":
-                if a.get("kind") != "DeclRefExpr" or a["referencedDecl"]["name"] not in E["next"]:
-                    self.bad("call to %s with a node** other than the caller's own" % nm, m)
-                return go(i + 1)
-            return self.ptr(args[i], E, lambda v: (vals.append(v), go(i + 1))[1])
-        return go(0)
+        def done(vals):
+            fuel = " " + self.use_fuel(E) if sig["fuel"] else ""
+            return self.bind_state("%s%s %s%s" % (nm, fuel, E["st"], "".join(" " + v for v in vals)), E, k)
+        return self.callee_args(nm, sig, m["inner"][1:], m, E, done)
 
     # ---------------------------------------------------------------- statements
     # C = {"brk": E -> text | None, "cont": E -> text | None, "ret": (term|None, E) -> text | None}
@@ -575,7 +720,7 @@ class Fn:
                         E2["env"].pop(d, None)
                 return knext(E2)
             for d in declared:
-                if d in E["env"]:
+                if d in E["env"] and d not in E["cell"]:
                     self.bad("declaration of %s shadows an outer variable" % d, s)
             return self.stmts(inner, E, leave, C, live_here)
         if kind == "NullStmt":
@@ -596,6 +741,13 @@ class Fn:
                 if d["name"] not in self.order:
                     self.order.append(d["name"])
                 init = [c for c in d.get("inner", []) if c.get("kind", "").endswith(("Expr", "Operator", "Literal"))]
+                if d["name"] in E1["cell"]:
+                    # a variable whose address is taken IS the cell `tnext` of the state; without initialiser it keeps whatever the state has
+                    if not init:
+                        return go(i + 1, E1)
+                    fake = {"kind": "BinaryOperator", "opcode": "=", "id": d.get("id"),
+                            "inner": [{"kind": "DeclRefExpr", "referencedDecl": {"name": d["name"], "kind": "VarDecl"}, "type": d.get("type")}, init[0]]}
+                    return self.assign(fake, E1, lambda E2: go(i + 1, E2))
                 if not init:
                     return go(i + 1, self.with_var(E1, d["name"], None))
                 fake = {"kind": "BinaryOperator", "opcode": "=", "id": d.get("id"),
@@ -645,7 +797,12 @@ class Fn:
                 self.bad("for with a condition variable", s)
             init, cnd, step = init or None, cnd or None, step or None
             if init is not None and init.get("kind") == "DeclStmt":
-                self.bad("for with a declaration", s)
+                # for (T *x = e; c; s) S   ==   { T *x = e; for (; c; s) S }
+                inner_for = dict(s)
+                inner_for["inner"] = [{}, var, s["inner"][2], s["inner"][3], body]
+                block = {"kind": "CompoundStmt", "id": str(s.get("id")) + "/block", "inner": [init, inner_for]}
+                self.tr.lines.map.setdefault(block["id"], self.tr.lines.map.get(s.get("id")))
+                return self.stmts([block], E, kafter, {"brk": None, "cont": None, "ret": None}, live_after)
         if init is not None:
             return self.effect(init, E, lambda E1: self.loop_core(s, kind, cnd, step, body, E1, kafter, live_after))
         return self.loop_core(s, kind, cnd, step, body, E, kafter, live_after)
@@ -655,8 +812,9 @@ class Fn:
         if E["inloop"]:
             self.bad("nested loop", s)
         pieces = [x for x in (cnd, step, body) if x is not None]
-        if any(tr.writes_state(x) for x in pieces):
-            self.bad("write through a pointer (or call of a writing function) inside a loop", s)
+        stateful = any(tr.writes_state(x, E["cell"]) for x in pieces)      # the loop carries the state st and hands it back
+        if stateful and not E["st"]:
+            self.bad("write through a pointer inside a loop of a function translated as read-only (internal)", s)
         inside = set()          # variables declared inside the loop are its own business (DeclStmt binds them on every iteration)
 
         def decls(n):
@@ -669,12 +827,15 @@ class Fn:
             decls(x)
         used = tr.refs(pieces) - inside
         for v in used:
-            if v == E["root"] or v in E["next"]:
-                self.bad("the loop uses `%s` (tree object / node** parameter)" % v, s)
+            if v == E["root"] or v in E["next"] or v in E["cell"]:
+                if stateful:
+                    continue
+                self.bad("the loop uses `%s` (tree object / node** parameter / variable whose address is taken) without carrying the state" % v, s)
             if v not in E["env"]:
                 self.bad("the loop uses %s, which is not a node pointer" % v, s)
         carried = [v for v in self.order if v in used and E["env"].get(v) is not None]
         outs = [v for v in self.order if v in tr.assigned(pieces) and v in live_after and v in E["env"]]
+        needs_fuel0 = tr.calls(pieces, lambda f: f in tr.done and tr.done[f]["fuel"])
         key = (s.get("id"), tuple(carried), tuple(outs))
         if key not in self.loops:
             self.nloops += 1
@@ -685,53 +846,66 @@ class Fn:
             EL = dict(E)
             EL["env"] = {v: (v + "'0" if v in carried else None) for v in E["env"]}
             EL["inloop"] = True
-            EL["st"] = None if not E["st"] else E["st"]
+            EL["stateful"] = stateful
+            EL["st"] = ("st'0" if stateful else E["st"]) if E["st"] else None
+            EL["fuel"] = "fuel0"
+            fixed = ("" if stateful else " rd") + (" fuel0" if needs_fuel0 else "")
 
             def exit_(E1):
-                vals = []
+                vals = [E1["st"]] if stateful else []
                 for v in outs:
                     if E1["env"].get(v) is None:
                         self.bad("%s may be uninitialised after the loop" % v, s)
                     vals.append(E1["env"][v])
-                return "Ok %s" % (vals[0] if len(vals) == 1 else "tt" if not vals else "(" + ", ".join(vals) + ")")
+                return self.ok(vals)
 
             def again(E1):
-                vals = []
+                vals = [E1["st"]] if stateful else []
                 for v in carried:
                     if E1["env"].get(v) is None:
                         self.bad("%s may be uninitialised at the next iteration" % v, s)
                     vals.append(E1["env"][v])
-                return "%s rd fuel'%s" % (name, "".join(" " + x for x in vals))
+                return "%s%s fuel'%s" % (name, fixed, "".join(" " + x for x in vals))
 
+            spend = lambda txt: "match fuel with\n| O => OutOfFuel\n| S fuel' =>\n%s\nend" % ind(txt, 4)
             live_in = tr.refs(pieces) | live_after
             if kind == "DoStmt":
                 test = lambda E1: self.cond(cnd, E1, lambda: again(E1), lambda: exit_(E1))
                 CL = {"brk": exit_, "cont": test, "ret": None}
-                it = self.stmts([body], EL, test, CL, live_in)
+                it = spend(self.stmts([body], EL, test, CL, live_in))
             else:
                 nxt = (lambda E1: self.effect(step, E1, again)) if step is not None else again
                 CL = {"brk": exit_, "cont": nxt, "ret": None}
                 run = lambda: self.stmts([body], EL, nxt, CL, live_in)
-                it = self.cond(cnd, EL, run, lambda: exit_(EL)) if cnd is not None else run()
-            ty = "(option id)" if len(outs) == 1 else "unit" if not outs else "(" + " * ".join("option id" for _ in outs) + ")"
-            params = "".join(" (%s'0 : option id)" % v for v in carried)
-            self.defs.append("Fixpoint %s (rd : id -> option node) (fuel : nat)%s {struct fuel} : res %s :=\n  match fuel with\n  | O => OutOfFuel\n"
-                             "  | S fuel' =>\n%s\n  end." % (name, params, ty, ind(it, 6)))
+                if cnd is None:
+                    it = spend(run())
+                elif tr.fuel_at == "body":
+                    it = self.cond(cnd, EL, lambda: spend(run()), lambda: exit_(EL))
+                else:
+                    it = spend(self.cond(cnd, EL, run, lambda: exit_(EL)))
+            ty = self.res_type((["tstate"] if stateful else []) + ["option id" for _ in outs])
+            params = ("" if stateful else " (rd : id -> option node)") + (" (fuel0 : nat)" if needs_fuel0 else "") + " (fuel : nat)" \
+                + (" (st'0 : tstate)" if stateful else "") + "".join(" (%s'0 : option id)" % v for v in carried)
+            self.defs.append("Fixpoint %s%s {struct fuel} : %s :=\n%s." % (name, params, ty, ind(it)))
             self.counter = saved
         name = self.loops[key]
-        self.has_loop = True
-        call = "%s %s fuel%s" % (name, self.rd_term(E), "".join(" " + E["env"][v] for v in carried))
+        fuel = self.use_fuel(E)
+        call = "%s%s%s %s%s%s" % (name, "" if stateful else " " + self.rd_term(E), " " + fuel if needs_fuel0 else "", fuel,
+                                  " " + E["st"] if stateful else "", "".join(" " + E["env"][v] for v in carried))
         news = [self.fresh(v) for v in outs]
         E2 = dict(E)
         E2["env"] = dict(E["env"])
         for v, t in zip(outs, news):
             E2["env"][v] = t
+        pat = list(news)
+        if stateful:
+            E2["st"] = self.fresh("st")
+            pat = [E2["st"]] + pat
         # variables assigned in the loop but not handed back are not to be used afterwards
-        for v in tr.assigned([x for x in (cnd, step, body) if x is not None]):
+        for v in tr.assigned(pieces):
             if v not in outs and v in E2["env"]:
                 E2["env"][v] = None
-        pat = news[0] if len(news) == 1 else "_" if not news else "'(" + ", ".join(news) + ")"
-        return "bind (%s) (fun %s =>\n%s)" % (call, pat, kafter(E2))
+        return "%s (%s) (fun %s =>\n%s)" % ("bind_log" if self.log else "bind", call, self.pattern(pat), kafter(E2))
 
     # ---------------------------------------------------------------- the function
     def run(self):
@@ -760,34 +934,127 @@ class Fn:
                 sig_params.append((p["name"], "next"))
             else:
                 self.bad("parameter %s of type `%s`" % (p.get("name"), qual(p)), p)
-        state = bool(nexts) or tr.writes_state(body)
-        if ret == "void" and not state:
+        cells = tr.address_taken(body)
+        if len(cells) > 1:
+            self.bad("the address of more than one variable is taken (%s)" % ", ".join(sorted(cells)), self.node)
+        for c in cells:
+            if c in env or c == root or c in nexts:
+                self.bad("the address of the parameter %s is taken" % c, self.node)
+        if cells and nexts:
+            self.bad("a node** parameter and a variable whose address is taken (one `next` cell is modelled)", self.node)
+        self.log = tr.calls(body, lambda f: f == tr.visit)
+        state = bool(nexts) or bool(cells) or tr.writes_state(body, cells)
+        if ret == "void" and not state and not self.log:
             self.bad("void function without effect on the modelled state", self.node)
         self.has_loop = False
         self.counter = {}
-        E = {"env": env, "st": "st'0" if state else None, "root": root, "next": nexts, "inloop": False}
-        if state:
-            kret = lambda v, E1: ("Ok (%s, %s)" % (v, E1["st"]) if ret == "ptr" else "Ok %s" % E1["st"]) if (v is None) == (ret == "void") \
-                else self.bad("return with/without a value", self.node)
-            kend = (lambda E1: "Ok %s" % E1["st"]) if ret == "void" else (lambda E1: self.bad("control reaches the end of a non-void function", self.node))
-        else:
-            kret = lambda v, E1: "Ok %s" % v if v is not None else self.bad("return without a value", self.node)
-            kend = lambda E1: self.bad("control reaches the end of a non-void function", self.node)
+        E = {"env": env, "st": "st'0" if state else None, "root": root, "next": nexts, "cell": cells, "inloop": False, "stateful": False,
+             "fuel": "fuel"}
+
+        def payload(v, E1):
+            return ([v] if ret == "ptr" else []) + ([E1["st"]] if state else [])
+
+        def kret(v, E1):
+            if (v is None) != (ret == "void"):
+                self.bad("return with/without a value", self.node)
+            return self.ok(payload(v, E1))
+        kend = (lambda E1: self.ok(payload(None, E1))) if ret == "void" \
+            else (lambda E1: self.bad("control reaches the end of a non-void function", self.node))
         C = {"brk": None, "cont": None, "ret": kret}
         term = self.stmts(body.get("inner", []) or [], E, kend, C, set())
         nodeparams = "".join(" (%s'0 : option id)" % n for n, kd in sig_params if kd == "node")
         fuel = " (fuel : nat)" if self.has_loop else ""
+        items = (["option id"] if ret == "ptr" else []) + (["tstate"] if state else [])
+        rtype = self.res_type(items)
+        if self.log and not items:
+            # nothing but the visits to hand back: the list itself
+            rtype, term = "res (list id)", "res_map fst (\n%s)" % ind(term)
         if state:
-            head = "Definition %s%s (st'0 : tstate)%s : res %s :=" % (self.name, fuel, nodeparams, "(option id * tstate)" if ret == "ptr" else "tstate")
+            head = "Definition %s%s (st'0 : tstate)%s : %s :=" % (self.name, fuel, nodeparams, rtype)
         else:
             rootp = " (root_node : option id)" if root else ""
-            head = "Definition %s (rd : id -> option node)%s%s%s : res (option id) :=" % (self.name, fuel, rootp, nodeparams)
-        self.sig = {"mode": "state" if state else "reader", "fuel": self.has_loop, "params": sig_params, "ret": ret, "loops": self.nloops}
+            head = "Definition %s (rd : id -> option node)%s%s%s : %s :=" % (self.name, fuel, rootp, nodeparams, rtype)
+        self.sig = {"mode": "state" if state else "reader", "fuel": self.has_loop, "params": sig_params, "ret": ret, "loops": self.nloops,
+                    "log": self.log}
         return "\n\n".join(self.defs + [head + "\n" + ind(term) + "."])
 
 
-def translate_tree(path, include, cfg, tree, names=None):
-    """-> (Gallina text of the functions of one tree, {function: error}, description of the accessor that was recognised)"""
+MACRO_PRELUDE = """(* GENERATED by tools/c2nav.py from harness/C03/macro_unit.c against the current headers - do not edit. *)
+From Coq Require Import List PArith ZArith FMapPositive Bool.
+From LibaV Require Import C03.IterDefs.
+From Gen Require Import NavGen.
+Import ListNotations.
+
+(* vocabulary of the functions that visit elements: a result carries the list of the elements visited so far *)
+(* visit(p); rest  -  p is put in front of what the rest visits; visiting a null pointer is a fault *)
+Definition emit {A : Type} (p : option id) (r : res (list id * A)) : res (list id * A) :=
+  match p with
+  | None => Stuck
+  | Some x => match r with Ok (l, a) => Ok (x :: l, a) | Stuck => Stuck | OutOfFuel => OutOfFuel end
+  end.
+(* a loop that visits, followed by the rest *)
+Definition bind_log {A B : Type} (r : res (list id * A)) (k : A -> res (list id * B)) : res (list id * B) :=
+  match r with
+  | Ok (l, a) => match k a with Ok (l2, b) => Ok (l ++ l2, b) | Stuck => Stuck | OutOfFuel => OutOfFuel end
+  | Stuck => Stuck
+  | OutOfFuel => OutOfFuel
+  end.
+(* free(p): the node leaves the heap; free(NULL) does nothing; freeing what is not allocated (a second free) is a fault *)
+Definition free_ptr (st : tstate) (p : option id) : res tstate :=
+  match p with
+  | None => Ok st
+  | Some x => match rdh (th st) x with None => Stuck | Some _ => Ok (free_node x st) end
+  end.
+
+"""
+
+
+def unit_functions(ast, tree):
+    """the functions u_a_<tree>_* / u_A_<TREE>_* the unit file defines, in file order"""
+    pre = ("u_a_%s_" % tree, "u_A_%s_" % tree.upper())
+    return [n["name"] for n in ast.get("inner", []) if n.get("kind") == "FunctionDecl" and n.get("name", "").startswith(pre)
+            and any(c.get("kind") == "CompoundStmt" for c in n.get("inner", []))]
+
+
+def translate_unit(unit, include, cfg, sigs, trees=("avl", "rbt")):
+    """Module Gen.NavGenMacros: the functions of the macro unit file (one per iteration macro of the headers), translated
+    against the signatures `sigs` = {tree: signatures of the functions of src/<tree>.c translated before}.  In this unit a
+    while/for loop consumes its unit of fuel on ENTRY TO THE BODY (after the test), as IterDefs.iterate does: the loop
+    `for (cur = first; cur; cur = step(cur))` run with fuel n on a sequence of exactly n elements ends with Ok, not OutOfFuel.
+    Calls inside a loop get the function's own fuel (parameter fuel0 of the loop), as the model's `iterate (next rd fuel) fuel`.
+    -> (text, {function: error}, {tree: [unit functions]})"""
+    from pathlib import Path
+    text, errs, names = MACRO_PRELUDE, {}, {}
+    try:
+        ast = load_ast(Path(unit).resolve(), Path(include).resolve(), Path(cfg).resolve())
+    except Unsupported as e:
+        return text, {str(unit): str(e)}, names
+    for t in trees:
+        tr = Tr(ast, t, done=sigs.get(t) or {}, fuel_at="body")
+        names[t] = unit_functions(ast, t)
+        out = []
+        for nm in names[t]:
+            try:
+                out.append("(* %s *)\n%s" % (nm, tr.translate(nm)))
+            except Unsupported as e:
+                errs[nm] = str(e)
+            except (KeyError, IndexError, TypeError, ValueError) as e:
+                errs[nm] = "unexpected AST shape in %s (%s: %s)" % (nm, type(e).__name__, e)
+        text += "(* ---------------------------------------------------------------- a/%s.h *)\n\n%s\n\n" % (t, "\n\n".join(out))
+    return text, errs, names
+
+
+def header_loop_macros(include, tree):
+    """the function-like macros of include/a/<tree>.h whose replacement starts with `for` (the iteration macros), by name"""
+    import re
+    from pathlib import Path
+    txt = (Path(include) / "a" / (tree + ".h")).read_text().replace("\\\n", " ")
+    return [m.group(1) for m in re.finditer(r"^[ \t]*#[ \t]*define[ \t]+(\w+)\([^)]*\)[ \t]*for\b", txt, flags=re.M)]
+
+
+def translate_tree(path, include, cfg, tree, names=None, sigs=None):
+    """-> (Gallina text of the functions of one tree, {function: error}, description of the accessor that was recognised);
+    sigs (a dict) receives the signatures of the translated functions"""
     names = names or nav_functions(tree)
     try:
         ast = load_ast(path, include, cfg)
@@ -806,18 +1073,23 @@ def translate_tree(path, include, cfg, tree, names=None):
             errs[nm] = str(e)
         except (KeyError, IndexError, TypeError, ValueError) as e:      # an AST shape this translator does not know
             errs[nm] = "unexpected AST shape in %s (%s: %s)" % (nm, type(e).__name__, e)
+    if sigs is not None:
+        sigs.update(tr.done)
     return "\n\n".join(out) + "\n", errs, tr.accessor_form
 
 
-def translate(repo, cfg, trees=("avl", "rbt")):
-    """the whole module Gen.NavGen for one configuration header"""
+def translate(repo, cfg, trees=("avl", "rbt"), sigs=None):
+    """the whole module Gen.NavGen for one configuration header; sigs (a dict) receives {tree: signatures}"""
     from pathlib import Path
     repo = Path(repo).resolve()
     cfg = Path(cfg).resolve()
     text, errs, forms = PRELUDE, {}, {}
     for t in trees:
         src = repo / "src" / (t + ".c")
-        body, e, form = translate_tree(src, repo / "include", cfg, t)
+        sg = {}
+        body, e, form = translate_tree(src, repo / "include", cfg, t, sigs=sg)
+        if sigs is not None:
+            sigs[t] = sg
         text += "(* ---------------------------------------------------------------- src/%s.c *)\n\n%s\n" % (t, body)
         errs.update(e)
         forms[t] = form
@@ -825,8 +1097,16 @@ def translate(repo, cfg, trees=("avl", "rbt")):
 
 
 if __name__ == "__main__":
-    # c2nav.py <repo> <configuration header> [avl|rbt ...]
-    t, e, f = translate(sys.argv[1], sys.argv[2], tuple(sys.argv[3:]) or ("avl", "rbt"))
+    # c2nav.py <repo> <configuration header> [avl|rbt ...]          the module NavGen
+    # c2nav.py <repo> <configuration header> --unit <macro_unit.c>  the module NavGenMacros
+    if "--unit" in sys.argv:
+        from pathlib import Path
+        sg = {}
+        t, e, f = translate(sys.argv[1], sys.argv[2], sigs=sg)
+        t, e2, f = translate_unit(sys.argv[4], Path(sys.argv[1]).resolve() / "include", sys.argv[2], sg)
+        e.update(e2)
+    else:
+        t, e, f = translate(sys.argv[1], sys.argv[2], tuple(sys.argv[3:]) or ("avl", "rbt"))
     print(t)
     for k, v in f.items():
         print("(* %s: parent accessor = %s *)" % (k, v))
